@@ -32,6 +32,7 @@ type fScenario struct {
 
 // a raw client with a background reader that can be told to stop reading
 type fClient struct {
+	half    *halfConn
 	name    string
 	c       net.Conn
 	svc     uint64
@@ -170,7 +171,7 @@ func (fr *faultRun) connect(name, cid string, subs ...string) (*fClient, string)
 			return nil, fmt.Sprintf("INFRA %s subscribe %s: %v", name, f, err)
 		}
 	}
-	f := &fClient{name: name, c: m.c, svc: m.svc, reading: 1, rx: make(chan rawPkt, 64), wq: make(chan []byte, 256)}
+	f := &fClient{name: name, c: m.c, half: m.half, svc: m.svc, reading: 1, rx: make(chan rawPkt, 64), wq: make(chan []byte, 256)}
 	fr.cl[name] = f
 	go f.readLoop()
 	go f.writeLoop()
@@ -437,6 +438,11 @@ func runFaults(sc *fScenario) (d string, tag string) {
 		case "cut":
 			f.cut = true
 			f.c.Close()
+		case "ping-halfclose":
+			// a PINGREQ, then the client shuts down its sending direction only
+			fr.write(f, []byte{0xc0, 0}, 250*time.Millisecond)
+			time.Sleep(20 * time.Millisecond)
+			f.half.halfClose()
 		case "disconnect":
 			fr.write(f, []byte{0xe0, 0}, time.Second)
 		case "bad":
@@ -567,7 +573,7 @@ func runFaults(sc *fScenario) (d string, tag string) {
 				return fmt.Sprintf("%s: the broker did not close the connection within %v", where, faultDeadline), tag
 			}
 		}
-		if f != nil && st.Free && (st.A == "cut" || st.A == "edge" || st.Gone) && f.svc != 0 {
+		if f != nil && st.Free && (st.A == "cut" || st.A == "edge" || st.A == "ping-halfclose" || st.Gone) && f.svc != 0 {
 			if !waitStop(f.svc, faultDeadline) {
 				n, first := libraryGoroutines()
 				dd := fmt.Sprintf("%s: no open connection has stopped reading, but the teardown of %s did not finish within %v (%d library goroutines, e.g. %s)",
